@@ -50,8 +50,14 @@ def gen_case(rng, thorough, force=None):
         if s["kind"] in ("uniform", "gauss") and rng.chance(0.3):
             s["kind"] = "hard"      # HardConstantAmplitudePlanceSource: overwrites the field on its plane
     c["amp"] = [rng.choice([-1.0, 1.0]) * rng.uniform(0.5, 2.0) for _ in c["sources"]]
+    # leftover bloch_vector component on a PERIODIC axis (periodic faces must ignore it); 'bloch' faces keep k = 0
+    c["bloch_vector"] = [0.0, 0.0, 0.0]
+    per = [ax for ax in range(3) if faces[Y.FACES[2 * ax]] == "periodic"]
+    if per and rng.chance(0.35):
+        c["bloch_vector"][rng.choice(per)] = rng.choice([-1.0, 1.0]) * rng.uniform(0.5e7, 2.0e7)
     if force:
         c.update(force)
+    c["bloch_vector"] = [v if c["faces"][Y.FACES[2 * ax]] == "periodic" else 0.0 for ax, v in enumerate(c["bloch_vector"])]
     if len(c["amp"]) != len(c["sources"]):
         c["amp"] = [1.3, -0.7, 0.9][:len(c["sources"])]
     for s in c["sources"]:
@@ -319,10 +325,44 @@ def one_mode_case(ctx, c):
         ctx.violation(c, d)
 
 
+def leftover_oracle(c, scr):
+    """periodic axes with a leftover non-zero bloch_vector component in the BoundaryConfig (documented: periodic faces
+    ignore it): explicit use_complex_fields=False must be accepted, and the real run must equal the run of the same scene
+    with a zero vector"""
+    j = Y.J()
+    f, jax = j["fdtdx"], j["jax"]
+    try:
+        scf = L.scene_of(c, False)
+    except Exception as e:
+        return f"placement with use_complex_fields=False raised {type(e).__name__} for periodic faces with leftover bloch_vector {c['bloch_vector']}: {str(e)[:160]}"
+    sc0 = L.scene_of(dict(c, bloch_vector=[0.0, 0.0, 0.0]), None)
+    inv_eps, sig_e, _ = L.materials(c, scr)
+    outs = []
+    for sc in (scf, sc0):
+        st = f.run_fdtd(arrays=Y.with_state(sc, inv_eps=inv_eps, sig_e=sig_e), objects=L.with_amps(sc, c["amp"]), config=sc.config,
+                        key=jax.random.PRNGKey(0), show_progress=False)
+        outs.append(st[1])
+    for nm in ("E", "H"):
+        d = cmp_complex_real(f"periodic scene with leftover bloch_vector vs zero vector: final {nm}", getattr(outs[0].fields, nm), getattr(outs[1].fields, nm))
+        if d:
+            return d
+    return None
+
+
 def one_case(ctx, c, sample=False):
-    scr, scc = L.scene_of(c, None), L.scene_of(c, True)
+    leftover = any(v != 0.0 for v in (c.get("bloch_vector") or []))
+    try:
+        scr, scc = L.scene_of(c, None), L.scene_of(c, True)
+    except Exception as e:
+        if not leftover:
+            raise
+        ctx.case(nontrivial=None, oracle_failed=True)
+        ctx.violation(c, f"placement raised {type(e).__name__} for periodic faces with leftover bloch_vector {c['bloch_vector']}: {str(e)[:160]}")
+        return
     info = {}
     d0 = run_oracle(c, scr, scc, info)
+    if not d0 and leftover:
+        d0 = leftover_oracle(c, scr)
     if d0:
         ctx.case(nontrivial=None, oracle_failed=True)
         ctx.impl_property_evals += 1
@@ -335,6 +375,7 @@ def one_case(ctx, c, sample=False):
              nontrivial=(tuple(c["shape"]), c["seed"]) if info.get("on") else None, n_sources=len(c["sources"]),
              grid="nonuniform" if c["widths"] else "uniform", gradient=str(c["gradient"]), sig_e=c["sig_e"], tfsf_cells=ntf,
              dispersive=(c["dispersive"]["kind"] if c.get("dispersive") else "no"),
+             leftover_bloch_vector=("no" if not leftover else "+" if max(c["bloch_vector"], key=abs) > 0 else "-"),
              **{"src_" + s["kind"]: True for s in c["sources"]}, **{"face_" + k: True for k in kinds},
              **{"det_%s_%s%s" % (d["kind"], "reduced" if d["reduce"] else "full", "_exact" if d["exact"] else ""): True for d in c["detectors"]})
     ctx.impl_property_evals += 3
@@ -374,6 +415,8 @@ def dispersive_forced(seed, k=0):
 def run(ctx):
     n = ctx.scale(2, 14)
     cases = [gen_case(ctx.rng, ctx.thorough, f) for f in FORCED[:n]]
+    # the first forced scene (periodic x, zero-k Bloch y, PML z) carries a leftover bloch_vector component on its periodic axis
+    cases[0]["bloch_vector"] = [(1.0 if ctx.seed % 2 == 0 else -1.0) * 1.3e7, 0.0, 0.0]
     while len(cases) < n:
         cases.append(gen_case(ctx.rng, ctx.thorough))
     if not ctx.thorough and ctx.seed != 0:
